@@ -411,6 +411,17 @@ def _post(entry, out, obj):
         tv = np.asarray(G.tits_vinberg_rep({(0, 1): -2.5})["a"], float)
         again = np.stack([np.asarray(G.geometric_representation()[g], float) for g in "abc"])
         kept = close(np.asarray(G.coxeter_matrix, float), labels_before, 1e-12) and close(np.asarray(np.asarray(obj, dtype=float)), labels_before, 1e-12)
+        # the same group from a diagram whose labels carry the packaging's number type (Python / NumPy scalar, 0-d array)
+        el = np.asarray(obj).reshape(-1)[0]
+        for conv in ((lambda x: type(el.item())(x)), (lambda x: np.asarray(obj).dtype.type(x)), (lambda x: np.array(x, dtype=np.asarray(obj).dtype))):
+            lb = labels_before
+            Gd = coxeter.CoxeterGroup(diagram=[("a", "b", conv(lb[0][1])), ("b", "c", conv(lb[1][2])), ("a", "c", conv(lb[0][2]))])
+            before_d = np.array(np.asarray(Gd.coxeter_matrix, dtype=float))
+            cmd_ = np.asarray(Gd.cartan_matrix({(0, 1): -2.5}), float)
+            tvd_ = np.asarray(Gd.tits_vinberg_rep({(0, 1): -2.5})["a"], float)
+            gd_ = np.stack([np.asarray(Gd.geometric_representation()[g], float) for g in "abc"])
+            kept = kept and close(np.asarray(Gd.coxeter_matrix, float), before_d, 1e-12) and close(cmd_, cm, 1e-9) and close(tvd_, tv, 1e-9) \
+                and close(gd_, again, 1e-9)
         hr = G.hyperbolic_rep()
         J = np.diag([-1.0, 1.0, 1.0])
         # HyperbolicRepresentation stores column matrices; form preserved either way for reflections
@@ -450,6 +461,8 @@ def gen_packaging(rng, n):
                 v = 1                      # an interior angle of a regular pentagon (< 3 pi / 5)
         else:
             v = rng.choice([0.5, 0.75, 1.25, 2.5, -0.375, 0.625]) if e not in ("regular_polygon", "regular_polygon_angle") else rng.choice([0.5, 0.75, 1.25])
+        if e == "coxeter_rep":
+            v, integral = 2, True        # the Coxeter matrix with an infinite-order label, in every packaging (int and float)
         yield {"entry": e, "v": v, "integral": integral}
 
 
@@ -803,6 +816,7 @@ def _with_ideal_vertex(rng, pts):
 
 
 def flam(rng, k):
+    """independent per-unit factors in +-[0.1, 10]"""
     return [rng.choice([-1.0, 1.0]) * math.exp(rng.uniform(math.log(0.1), math.log(10))) for _ in range(k)]
 
 
@@ -827,16 +841,26 @@ def gen_rescale_oracle(rng, n):
             for a_, b_ in zip(X0, Y):
                 while a_ == b_:
                     b_[1 + rng.randrange(dim)] = rng.choice([0.125, -0.375])
-        near = (not grid) and rng.random() < 0.2
+        far = (not grid) and rng.random() < 0.15
+        if far:
+            # base points at hyperbolic distance ~10 from the origin (1 - |k|^2 ~ 3e-9 .. 1.5e-8): interior, not ideal
+            def fp():
+                v_ = [rng.gauss(0, 1) for _ in range(dim)]
+                nv_ = math.sqrt(sum(t * t for t in v_))
+                r_ = math.tanh(rng.uniform(9.9, 10.6))
+                return [1.0] + [t / nv_ * r_ for t in v_]
+            X0 = [fp() for _ in range(k)]
+        near = (not grid) and (not far) and rng.random() < 0.2
         if near:
             # nearly coincident and coincident points (the representatives still get independent factors of either sign)
             Y = [[1.0] + [c + rng.choice([0.0, 1e-9, 1e-6, 1e-4, 3e-3]) * rng.uniform(-1, 1) for c in x[1:]] for x in X0]
         y_ideal = (not grid) and (not near) and rng.random() < 0.3
         if y_ideal:      # ideal points (eigenvectors of loxodromic isometries are handed out like this, with any sign)
             Y = [[1.0] + [c / math.sqrt(sum(t * t for t in y[1:])) for c in y[1:]] for y in Y]
-        yield {"dim": dim, "k": k, "X": X0, "Y": Y, "y_ideal": y_ideal, "grid": grid, "near": near, "Z": fball_h(rng, k, dim),
+        yield {"dim": dim, "k": k, "X": X0, "Y": Y, "y_ideal": y_ideal, "grid": grid, "near": near, "far": far, "Z": fball_h(rng, k, dim),
                "poly": [_with_ideal_vertex(rng, fball_h(rng, nv, dim)) for _ in range(k)],
                "lx": flam(rng, k), "ly": flam(rng, k), "lz": flam(rng, k), "lp": [flam(rng, nv) for _ in range(k)],
+               "mag": (10.0 ** rng.randint(-9, 9)) if rng.random() < 0.3 else 1.0,
                "d": rng.uniform(0.05, 2.0), "angle": ang, "boost": rng.uniform(0.3, 3.0), "tc": flam(rng, 1)[0],
                "scalar_shape": rng.random() < 0.3}
 
@@ -867,13 +891,23 @@ def _outputs(inp, X, Y, Z, poly, tscale):
     o["coords_projective~"] = np.asarray(PX.coords("projective"), float)
     if not inp.get("y_ideal"):
         o["distance"] = np.asarray(PX.distance(PY), float)
+    if inp.get("far"):
+        # far base point: only the outputs that are well conditioned there (relative to cosh d ~ 1e4..1e5)
+        if not inp.get("y_ideal"):
+            # (angles first, on points that have not been queried before: queries normalise the stored representative in place)
+            o["far_tangent_angle"] = np.asarray(H.Point(X).unit_tangent_towards(H.Point(Y)).angle(H.Point(X).unit_tangent_towards(H.Point(Z))), float)
+            o["far_tangent_angle_reverse"] = np.asarray(H.Point(Y).unit_tangent_towards(H.Point(X)).angle(H.Point(Y).unit_tangent_towards(H.Point(Z))), float)
+            o["far_distance"] = np.asarray(PX.distance(PY), float)
+        return o
     if inp.get("near"):
         # (segments, tangent directions and circles are ill-conditioned / undefined for coincident points)
         o["distance_reverse"] = np.asarray(PY.distance(PX), float)
         for fo in (True, False):
             o["origin_to_map(force_oriented=%s)#" % fo] = np.asarray(PX.origin_to(force_oriented=fo).proj_data, float)
         return o
-    seg = H.Segment(PX, PY)
+    # (fresh Points: earlier queries may or may not have normalised PX / PY in place, which must not decide the relative
+    # scale of the two representatives the segment is built from)
+    seg = H.Segment(H.Point(np.array(X, copy=True)), H.Point(np.array(Y, copy=True)))
     ib = np.asarray(seg.ideal_endpoint_coords("klein"), float)
     o["segment_ideal_unordered"] = np.sort(ib, axis=-2) if False else ib
     o["segment_endpoints"] = np.asarray(seg.endpoint_coords("klein"), float)
@@ -934,7 +968,11 @@ def run_rescale_oracle(inp):
     a = _outputs(inp, X, Y, Z, poly, 1.0)
     lx, ly, lz = (np.array(inp[k])[:, None] for k in ("lx", "ly", "lz"))
     lp = np.array(inp["lp"])[:, :, None]
-    b = _outputs(inp, X * lx, Y * ly, Z * lz, poly * lp, inp["tc"])
+    # G12: one overall size 10^k (k in -9..9) for all the homogeneous data of the case on top of the per-unit factors; the
+    # relative scale of two arguments of one call stays within 1e2 (beyond ~1e8 the quadratic of Segment loses all digits on
+    # the clean tree as well)
+    g = inp.get("mag", 1.0)
+    b = _outputs(inp, X * lx * g, Y * ly * g, Z * lz * g, poly * lp * g, inp["tc"])
     worst = []
     hs_ok = None
     if "circle_halfspace_radius" in a:
@@ -1005,7 +1043,10 @@ def judge_rescale_oracle(inp, obs, lr):
         return {"expected": "geometric outputs for X and for lambda.X", "observed": obs, "tags": {"exc": obs["exc"]}}
     for k, e in obs["errs"]:
         # ideal points pushed through kleinian_to_poincare lose half their digits (sqrt|1-|k|^2| near 0)
-        if not (e <= (1e-4 if "halfspace" in k else 1e-6)):
+        # far base points: 1 - |k|^2 down to 1e-11, so angles at them carry ~1e-16 / 1e-11 relative error: 1e-4
+        # (arccos near its endpoints squares the error: 5e-3 there; ideal endpoints of nearly null chords: 1e-5)
+        tol_ = 5e-3 if k.startswith("far_") else (2e-3 if "halfspace" in k else (1e-5 if "ideal" in k else 1e-6))
+        if not (e <= tol_):
             return {"expected": "%s unchanged by rescaling the homogeneous coordinates" % k.rstrip("#~@"),
                     "observed": {"output": k, "error": e},
                     "tags": {"output": k.rstrip("#~@"), "dim": inp["dim"]}}
@@ -1477,6 +1518,80 @@ def judge_objhist(inp, obs, lr):
     return None
 
 
+# ------------------------------------------------------------------------------------------------
+# S3g: every model x every packaging (integer ones included) x every entry point for coordinates (G13):
+#      constructor, coords(model, data) setter, the *_coords setters, get_point; string and enum model names; single and stacked
+# ------------------------------------------------------------------------------------------------
+MODEL_DATA = {          # integer-valued coordinates of interior points in each model
+    "klein": [[0, 0]], "poincare": [[0, 0]],
+    "halfspace": [[1, 2], [-3, 1], [0, 1], [2, 5]],
+    "hyperboloid": [[1, 0, 0], [3, 2, 2], [3, -2, 2], [9, 4, 8]],
+    "projective": [[2, 1, 0], [3, 1, -1], [5, 0, 3], [-4, 1, 2]],
+}
+MODEL_ENUM = {"klein": H.Model.KLEIN, "poincare": H.Model.POINCARE, "halfspace": H.Model.HALFSPACE,
+              "hyperboloid": H.Model.HYPERBOLOID, "projective": H.Model.PROJECTIVE}
+COORD_PACKS = [("list_int", lambda a: [[int(x) for x in r] for r in a] if np.ndim(a) == 2 else [int(x) for x in a], 64),
+               ("list_float", lambda a: np.asarray(a, float).tolist(), 64), ("tuple_int", lambda a: tuple(map(tuple, a)) if np.ndim(a) == 2 else tuple(int(x) for x in a), 64),
+               ("int64", lambda a: np.asarray(a, dtype=np.int64), 64), ("int32", lambda a: np.asarray(a, dtype=np.int32), 64),
+               ("float64", lambda a: np.asarray(a, dtype=np.float64), 64), ("float32", lambda a: np.asarray(a, dtype=np.float32), 32)]
+COORD_ENTRIES = ["ctor_str", "ctor_enum", "coords_setter", "named_setter", "get_point"]
+
+
+def gen_models(rng, n):
+    for m, rows in MODEL_DATA.items():
+        for entry in COORD_ENTRIES:
+            for stacked in (False, True):
+                yield {"model": m, "entry": entry, "stacked": stacked, "row": rng.randrange(len(rows))}
+
+
+def _coord_call(entry, m, data):
+    if entry == "ctor_str":
+        return H.Point(data, model=m)
+    if entry == "ctor_enum":
+        return H.Point(data, model=MODEL_ENUM[m])
+    if entry == "get_point":
+        return H.get_point(data, m)
+    P_ = H.Point(np.array([1.0, 0.1, 0.2]) if np.ndim(data) == 1 else np.tile(np.array([1.0, 0.1, 0.2]), (np.shape(data)[0], 1)))
+    if entry == "coords_setter":
+        P_.coords(m, data)
+    else:
+        {"klein": P_.kleinian_coords, "poincare": P_.poincare_coords, "halfspace": P_.halfspace_coords,
+         "hyperboloid": P_.hyperboloid_coords, "projective": P_.projective_coords}[m](data)
+    return P_
+
+
+def run_models(inp):
+    m = inp["model"]
+    rows = MODEL_DATA[m]
+    base = rows if inp["stacked"] else rows[inp["row"]]
+    ref = np.asarray(_coord_call("ctor_str", m, np.asarray(base, dtype=np.float64)).coords("klein"), float)
+    out = []
+    for lab, conv, cls in COORD_PACKS:
+        try:
+            pt = _coord_call(inp["entry"], m, conv(base))
+            got = np.asarray(pt.coords("klein"), float)
+            back = np.asarray(pt.coords(m), float)
+            e1 = err(got, ref) if got.shape == ref.shape else float("inf")
+            e2 = err(back if m != "projective" else back / back[..., :1], np.asarray(base, float) if m != "projective" else np.asarray(base, float) / np.asarray(base, float)[..., :1])
+            out.append({"pack": lab, "err": max(e1, e2 if m not in ("hyperboloid",) else 0.0), "tol": 1e-5 if cls == 32 else 1e-10})
+        except Exception as ex:  # noqa: BLE001
+            out.append({"pack": lab, "exc": "%s: %s" % (type(ex).__name__, str(ex)[:100])})
+    return {"outs": out}
+
+
+def judge_models(inp, obs, lr):
+    if "exc" in obs:
+        return {"expected": "points from coordinates", "observed": obs, "tags": {"model": inp["model"], "entry": inp["entry"], "exc": obs["exc"]}}
+    for o in obs["outs"]:
+        if "exc" in o:
+            return {"expected": "%s accepts %s coordinates as %s" % (inp["entry"], inp["model"], o["pack"]), "observed": o["exc"],
+                    "tags": {"model": inp["model"], "entry": inp["entry"], "pack": o["pack"], "raises": True}}
+        if not (o["err"] <= o["tol"]):
+            return {"expected": "the same point as from float64 coordinates (Klein coordinates and round trip, %g)" % o["tol"],
+                    "observed": o, "tags": {"model": inp["model"], "entry": inp["entry"], "pack": o["pack"], "raises": False}}
+    return None
+
+
 CLAUSES = [
     Clause("numpy_tables_corr", "corr", gen_numpy, run_numpy, judge_numpy, lean=lean_numpy, site="numpy.can_cast / asarray / result_type",
            budget={"quick": 1, "thorough": 1},
@@ -1494,7 +1609,7 @@ CLAUSES = [
            budget={"quick": 1, "thorough": 1},
            what="dtype AND stored value of array_like for every real packaging of the same number (7 values, explicit dtype None/int64/float32/float64, both integer_type) vs arrayLikeVal (truncation towards zero for int64)"),
     Clause("rescale_corr", "corr", gen_rescale, run_rescale, judge_rescale, lean=lean_rescale, site="hyperbolic rescaling formulas",
-           budget={"quick": 60, "thorough": 1500},
+           budget={"quick": 40, "thorough": 1500},
            what="affine coords, normalize, cosh d, unit_tangent_towards, point_along, segment ideal endpoints (unordered), Poincare circle, apply: implementation on X and on lambda.X vs the model executed over Q"),
     Clause("packaging_oracle", "oracle", gen_packaging, run_packaging, judge_packaging, site="listed entry points",
            budget={"quick": 72, "thorough": 900},
@@ -1505,6 +1620,9 @@ CLAUSES = [
     Clause("object_history_oracle", "oracle", gen_objhist, run_objhist, judge_objhist, site="hyperbolic Point / Segment / Polygon objects with a history",
            budget={"quick": 80, "thorough": 2000},
            what="G1 every query after query / transform (continuing with the image) / item assignment / set / flatten / reshape / index / copy, in random order, equals the query on a fresh object built from the current data; G2 caller's arrays untouched, everything the API returns scribbled over and re-queried, tuples / non-contiguous views / Fortran-order input; G3 the same calls on an unrelated object of the same class in between, both construction orders; G4 parts of dtypes float64 / float32 / int combined in both orders vs the float64 reference"),
+    Clause("model_packaging_oracle", "oracle", gen_models, run_models, judge_models, site="hyperbolic.Point coordinates in every model",
+           budget={"quick": 1, "thorough": 1},
+           what="every model (klein, poincare, halfspace, hyperboloid, projective) x every packaging of integer-valued coordinates (int / float lists, tuples, int64, int32, float64, float32 arrays) x constructor with string and enum model names, coords(model, data) setter, the *_coords setters, get_point; single and stacked; Klein coordinates vs the float64 reference and the round trip"),
     Clause("examples_oracle", "oracle", gen_examples, run_examples, judge_examples, site="README / docstring examples",
            budget={"quick": 1, "thorough": 1}, what="every ```python block of frontpage_doc.md and of the module docstrings runs (Agg backend)"),
     Clause("segment_a_zero_oracle", "oracle", gen_a_zero, run_a_zero, judge_a_zero, site="Segment._compute_aux_data",
